@@ -266,7 +266,14 @@ class WebSocketFrame(object):
 
     def writeData(self, socket):
 
-        socket.sendall(self.payload)
+        payload = self.payload
+        if self.flags.mask:
+            # RFC 6455 5.3: a masked frame carries its payload XORed with the masking key
+            payload = bytearray(payload)
+            for i in range(len(payload)):
+                payload[i] ^= self.masking_key[i%4]
+            payload = bytes(payload)
+        socket.sendall(payload)
 
     def __repr__(self):
         opcode = self.flags.opcode.name
